@@ -22,8 +22,7 @@ EXPLANATION = (
 
 # ---------------------------------------------------------------------------------------------- R1
 
-def r1_min_aligned(ctx, P, D):
-    R = "C10.R1"
+def r1_min_aligned(ctx, P, D, R="C10.R1"):
     ctx.rule(R, "every written position value is min-aligned by construction")
     n = 0
     for pw in D.sites:
